@@ -147,9 +147,33 @@ def validate(case):
     return fails
 
 
+def documented_refusals(case):
+    """Configurations hypnotoad documents as refused must not come out as a grid: a connected double
+    null (nx_inter_sep=0) whose second X-point lies beyond the first gridded flux surface of the inner
+    or outer SOL ('Cannot create connected double-null grid ...')."""
+    side = case.side
+    out = []
+    ps = side.get("psi_sep") or []
+    if side.get("double_null_type") == "connected" and len(ps) >= 2 and side.get("psi_axis") is not None:
+        sgn = numpy.sign(ps[0] - side["psi_axis"])
+        for name in ("inner_core", "outer_core"):
+            reg = side.get("eq_regions", {}).get(name)
+            if reg is None or len(reg["psi_vals"]) < 2:
+                continue
+            first_centre = float(reg["psi_vals"][1][1])
+            if sgn * (first_centre - ps[1]) < 0:
+                out.append(
+                    ("C12/accepted-documented-refusal/connected-double-null-second-xpoint-beyond-first-sol-surface",
+                     {"region": name, "psi_sep": [float(p) for p in ps], "first_sol_cell_centre": first_centre}, {})
+                )
+    return out
+
+
 def check(case):
     desc = case.desc
     fails = validate(case)
+    if isinstance(case.side, dict) and "eq_regions" in case.side:
+        fails += documented_refusals(case)
     lab = {"nonorthogonal_spacing_method": None}
     try:
         import yaml
@@ -181,7 +205,8 @@ def adversarial(tier, seed):
         kind = draw(
             st.sampled_from(
                 ["psinorm-beyond-wall", "psinorm-past-second-xpoint", "tiny-ny", "nx1", "many-guards", "extreme-spacing",
-                 "coarse-input", "core-too-deep", "tight-tolerances", "loose-tolerances", "nonorth-methods", "big-jitter"]
+                 "coarse-input", "core-too-deep", "tight-tolerances", "loose-tolerances", "nonorth-methods", "big-jitter",
+                 "connected-dn-threshold"]
             )
         )
         d["stratum"] = "adversarial/" + kind
@@ -222,13 +247,35 @@ def adversarial(tier, seed):
             o["orthogonal"] = False
             o["nonorthogonal_spacing_method"] = draw(st.sampled_from(["orthogonal", "perp_orthogonal_combined", "poloidal_orthogonal_combined", "combined"]))
             o["poloidal_spacing_method"] = draw(st.sampled_from(["linear", "monotonic", "sqrt"]))
+        elif kind == "connected-dn-threshold":
+            # nearly connected double null gridded as connected, SOL widths around the documented
+            # refusal threshold (second X-point vs first gridded SOL surface), inner SOL narrower
+            from .. import families
+
+            e = d["eq"]
+            e["topology"] = "cdn"
+            e.pop("geom", None)
+            e["wall"] = {"kind": "rect"}
+            e["delta"] = draw(st.sampled_from([5e-4, -5e-4, 1e-3, -1e-3, 2e-3]))
+            crit = families.g_critical(e)
+            p2 = (crit["x"][1][2] - crit["o"][2]) / (crit["x"][0][2] - crit["o"][2])
+            for k in list(o):
+                if k.startswith(("ny_", "nx_", "psinorm", "target_", "nonorthogonal_target")):
+                    o.pop(k)
+            nx_sol = draw(st.integers(1, 3))
+            w_in = 2 * nx_sol * (p2 - 1.0) * draw(st.sampled_from([0.5, 0.8, 1.2, 2.0]))
+            o.update(nx_core=2, nx_sol=nx_sol, psinorm_core=0.9, psinorm_pf=0.95, psi_spacing_separatrix_multiplier=1.0,
+                     psinorm_sol_inner=round(1.0 + max(w_in, 0.004), 5), psinorm_sol=round(1.0 + max(4 * w_in, 0.02), 5))
+            for k in ("ny_inner_lower_divertor", "ny_inner_upper_divertor", "ny_outer_lower_divertor", "ny_outer_upper_divertor", "ny_inner_sol", "ny_outer_sol"):
+                o[k] = 4
+            o.pop("start_at_upper_outer", None)
         elif kind == "big-jitter":
             d["eq"]["jitter"] = {"r0": draw(st.sampled_from([0.9, 1.1])), "wR": draw(st.sampled_from([0.7, 1.3])), "wZ": 1.0,
                                  "sep": draw(st.sampled_from([0.8, 1.25])), "zc": draw(st.sampled_from([-0.1, 0.1]))}
         return d
 
-    n = 28 if tier == "quick" else 320
-    return corpus.collect(build(), n, seed + 1200, keyfn=lambda d: d["stratum"])
+    n = 30 if tier == "quick" else 320
+    return corpus.collect(build(), n, seed + 1200, keyfn=lambda d: d["stratum"], oversample=10)
 
 
 def must_reject(tier, seed):
